@@ -14,7 +14,8 @@ N = {"quick": 500, "thorough": 12000}
 def rand_literal(rng):
     r = rng.random()
     if r < 0.45:
-        s = rng.choice(gen.STR_SPECIALS) if rng.random() < 0.5 else gen.rand_string(rng, 10)
+        k = rng.random()
+        s = rng.choice(gen.STR_SPECIALS) if k < 0.5 else gen.long_string(rng) if k < 0.56 else gen.rand_string(rng, 10)
         return gen.lit_str(s, rng)
     if r < 0.7:
         k = rng.random()
@@ -96,6 +97,41 @@ def make_cases(ctx, n):
     return cases
 
 
+UNICODE_FORMS = ["cafe\u0301", "caf\u00e9", "\u212b", "\u00c5", "A\u030a", "\u1e9b\u0323", "\u1100\u1161", "\uac00", "\ufb01n", "\u2126", "\u03a9",
+                 "\u00df", "SS", "\u0130", "i\u0307", "\u01c5", "\uff21", "x\u200d", "\u0958", "\u0915\u093c"]
+
+
+def corpus_cases(ctx):
+    """deterministic slice: canonically / compatibly equivalent spellings and other-typed twins in every literal position"""
+    import unicodedata
+    rng = ctx.rng
+    cases = []
+    ab = [(gen.lit_str("a", quote='"'), "1"), (gen.lit_str("b", quote='"'), "1"), (gen.lit_str("c", quote='"'), "2")]
+    tf = lambda pred: ("if", pred, ("ret", [(gen.lit_str("T", quote='"'), "1")]), ("else", ("ret", [(gen.lit_str("F", quote='"'), "1")])))
+    for sform in UNICODE_FORMS:
+        lit = gen.lit_str(sform, quote='"')
+        alts = list({sform, unicodedata.normalize("NFC", sform), unicodedata.normalize("NFD", sform), unicodedata.normalize("NFKC", sform),
+                     sform.casefold(), sform.lower(), sform.upper()})
+        cases.append({"prog": gen.Program("e", lit, ["u"], ("ret", ab), {"u": "any"}), "envs": [{"u": "unit%d" % k} for k in range(8)], "form": "salt"})
+        cases.append({"prog": gen.Program("e", None, ["u"], ("ret", ab), {"u": "any"}), "envs": [{"u": a} for a in alts], "form": "unit"})
+        cases.append({"prog": gen.Program("e", None, ["u"], tf(("cmp", ("id", "x"), "==", ("lit", lit))), {"u": "any", "x": "any"}),
+                      "envs": [{"u": 1, "x": a} for a in alts], "form": "eq"})
+        cases.append({"prog": gen.Program("e", None, ["u"], ("ret", [(lit, "1")]), {"u": "any"}), "envs": [{"u": 1}], "form": "group"})
+    # other-typed twins inside ONE membership tuple, both orders
+    for a, b in [(gen.lit_str("7", quote='"'), gen.lit_int(7)), (gen.lit_float("1.5"), gen.lit_str("1.5", quote='"')), (gen.lit_int(1), gen.lit_float("1.0")),
+                 (gen.lit_str("0", quote='"'), gen.lit_int(0)), (gen.lit_int(0), gen.lit_float("-0.0")), (gen.lit_str("x", quote='"'), gen.lit_str("x", quote="'")),
+                 (gen.lit_int(2 ** 53), gen.lit_float("9007199254740992.0")), (gen.lit_str("(1, 2)", quote='"'), gen.lit_int(3))]:
+        for x, y in ((a, b), (b, a)):
+            for op in ("in", "not in"):
+                extra = [("lit", gen.lit_str("zz", quote='"'))] if rng.random() < 0.5 else []
+                pred = ("cmp", ("id", "x"), op, ("tuple", [("lit", x), ("lit", y)] + extra))
+                vals = [x.value, y.value, str(x.value), str(y.value), "zz", 8, (1, 2)]
+                cases.append({"prog": gen.Program("e", None, ["u"], tf(pred), {"u": "any", "x": "any"}), "envs": [{"u": 1, "x": v} for v in vals], "form": "twin-tuple"})
+    for c in cases:
+        c["text"] = gen.render(c["prog"], rng, "plain")
+    return cases
+
+
 def k2_probes(ctx):
     """finding family K2: numeric literals beyond what the generated text can carry"""
     from pyab_experiment.experiment_evaluator import ExperimentEvaluator
@@ -151,10 +187,10 @@ def run(ctx):
                          "tuple member, nested tuple member, salt) x contents from an adversarial alphabet (other quote, backslashes, digits "
                          "only, inf, nan, 1e5, 0x10, non-ASCII, combining marks, empty, 2^53+-1, 100-digit ints, 17+-digit decimals, -0.0) x "
                          "inputs equal to and minimally different from the literal incl. other-typed look-alikes; compares value AND type")
-    progcases.run_cases(ctx, make_cases(ctx, n))
+    progcases.run_cases(ctx, corpus_cases(ctx) + make_cases(ctx, n))
     literal_twins(ctx, max(20, n // 20))
     k2_probes(ctx)
 
 
 def search(ctx):
-    progcases.run_cases(ctx, make_cases(ctx, 3000), check_model=False, want_stages=False)
+    progcases.run_cases(ctx, corpus_cases(ctx) + make_cases(ctx, 3000), check_model=False, want_stages=False)
